@@ -5,7 +5,7 @@ from __future__ import annotations
 import itertools
 
 from vf.guard import call as gcall, too_many_hangs
-from vf.core import Job, indexed_chunk, viol
+from vf.core import Job, indexed_chunk, new_result, viol
 
 LEVEL = "exploration"
 RULE = (
@@ -97,6 +97,60 @@ def _chunk(params, lo, hi):
     return indexed_chunk(_case, params, lo, hi)
 
 
+HIST_FIRST = [[[5, 5], [0, 9]], [[9, 0], [5, 5]], [[-1, 2, 2], [0, 0, 2], [2, -1, -1]], [[1, 1, 1], [1, 1, 1], [1, 1, 1]], [[7, 0, 3], [0, 7, 3], [3, 3, 0]]]
+
+
+def _history_chunk(params, lo, hi):
+    """Statelessness: call A (square), then call B (rectangular with the same max dimension); B is judged on its own.
+    index = (first * 2 + minimize_first) * |B space| + b_index ; B ranges over all 1x2, 2x1, 2x3, 3x2 matrices over {0,3,4}"""
+    from solvor.hungarian import solve_hungarian
+
+    alpha = (0, 3, 4)
+    shapes = [(1, 2), (2, 1), (2, 3), (3, 2), (1, 3), (3, 1)]
+    sizes = [len(alpha) ** (a * b) for a, b in shapes]
+    tot = sum(sizes)
+    r = new_result()
+    for idx in range(lo, hi):
+        b = idx % (tot * 2)
+        fa = idx // (tot * 2)
+        first = HIST_FIRST[fa // 2]
+        min_first = fa % 2 == 0
+        minimize = b % 2 == 0
+        b //= 2
+        for (rows, cols), sz in zip(shapes, sizes):
+            if b < sz:
+                break
+            b -= sz
+        ent = [alpha[d] for d in digits_(b, len(alpha), rows * cols)]
+        matrix = [ent[i * cols : (i + 1) * cols] for i in range(rows)]
+        try:
+            solve_hungarian([list(x) for x in first], minimize=min_first)
+        except Exception:  # noqa: BLE001
+            pass
+        errs, label, nontrivial = judge(matrix, minimize)
+        r["n"] += 1
+        r["outcomes"]["after_history:" + label] += 1
+        if nontrivial:
+            r["nontrivial"] += 1
+        wit = {"history": [{"cost_matrix": first, "minimize": min_first}], "cost_matrix": matrix, "minimize": minimize}
+        if not r["samples"]:
+            r["samples"].append(wit)
+        for kind, detail in errs:
+            r["violations"].append(viol("solve_hungarian", kind, wit, f"after solve_hungarian({first}, minimize={min_first}): solve_hungarian({matrix}, minimize={minimize}): {detail}"))
+        if len(r["violations"]) >= 40 or too_many_hangs():
+            r["capped"] = True
+            break
+    return r
+
+
+def digits_(idx, base, n):
+    out = []
+    for _ in range(n):
+        out.append(idx % base)
+        idx //= base
+    return out
+
+
 def _job(rows, cols, alpha, name=None):
     size = 2 * len(alpha) ** (rows * cols)
     return Job(name or f"{rows}x{cols}_over_{len(alpha)}", size, _chunk, (rows, cols, alpha), describe=f"all {rows}x{cols} matrices over {alpha} x min/max")
@@ -113,6 +167,8 @@ def jobs(tier, seed):
     for rc in ((2, 3), (3, 2), (2, 4), (4, 2)):
         js.append(_job(*rc, A4))
     js.append(_job(4, 4, A2))
+    nb = 2 * (3**2 + 3**2 + 3**6 + 3**6 + 3**3 + 3**3)
+    js.append(Job("call_history_pairs", len(HIST_FIRST) * 2 * nb, _history_chunk, None, describe="a square solve followed by a rectangular solve of the same padded size; the second call is judged on its own (results must not depend on earlier calls)"))
     big = [(3, 4, A3), (4, 3, A3)]
     if tier == "thorough":
         for b in big:
@@ -132,6 +188,10 @@ def jobs(tier, seed):
 
 def replay(v):
     w = v["witness"]
+    for h in w.get("history", []):
+        from solvor.hungarian import solve_hungarian
+
+        solve_hungarian([list(x) for x in h["cost_matrix"]], minimize=h["minimize"])
     errs, _, _ = judge(w["cost_matrix"], w["minimize"])
     if errs:
         return {"function": "solve_hungarian", "kind": errs[0][0], "detail": errs[0][1]}
